@@ -263,13 +263,83 @@ let run_history (n : int) (lines : string list) : unit =
    with History_ends -> ());
   print_string "END\n"
 
+(* ---- reference-model mode: the same op files on the extracted Spec.v.
+   One line per call: result, whether the call was inside the limits
+   (preb), and the present set afterwards.  A handle leaves the game at its
+   first call outside the limits or at a call the reference model does not
+   cover (merge, slice, load, script ...). *)
+
+let res_out (r : res) : string =
+  match r with
+  | RUnit -> "ok"
+  | RData None -> "none"
+  | RData (Some h) -> "some " ^ hex_out h
+  | RId v -> string_of_int (int_of_nat v)
+  | RKid None -> "none"
+  | RKid (Some v) -> Printf.sprintf "some %d" (int_of_nat v)
+  | RKids e -> Printf.sprintf "[%s]" (edges_out e)
+  | RKeys k -> Printf.sprintf "[%s]" (String.concat "," (List.map (fun v -> string_of_int (int_of_nat v)) k))
+
+let spec_history (n : int) (lines : string list) : unit =
+  let ss : (string, spec * nat) Hashtbl.t = Hashtbl.create 8 in
+  let n_edges = nat_of_int n in
+  List.iter
+    (fun l ->
+      let t = Array.of_list (List.filter (fun s -> s <> "") (String.split_on_char ' ' (String.trim l))) in
+      if Array.length t > 0 && t.(0).[0] <> '#' then begin
+        let opname = t.(0) in
+        let doit h (o : op) =
+          match Hashtbl.find_opt ss h with
+          | None -> Printf.printf "%s -> ? | out\n" opname
+          | Some (s, cap) ->
+              let ok = preb n_edges cap s o in
+              if not ok then begin
+                Hashtbl.remove ss h;
+                Printf.printf "%s -> ? | pre=0\n" opname
+              end else begin
+                let s1, r = sstep s o in
+                Hashtbl.replace ss h (s1, cap);
+                Printf.printf "%s -> %s | pre=1 keys=[%s]\n" opname (res_out r)
+                  (String.concat "," (List.map (fun v -> string_of_int (int_of_nat v)) (s_keys s1)))
+              end
+        in
+        match opname with
+        | "NEW" ->
+            Hashtbl.replace ss t.(1) (sinit, id_of_string t.(2));
+            Printf.printf "NEW -> ok | pre=1 keys=[]\n"
+        | "ADD" -> doit t.(1) (OAdd (id_of_string t.(2)))
+        | "BIND" -> doit t.(1) (OBind (id_of_string t.(2), id_of_string t.(3), label_in t.(4)))
+        | "PUT" -> doit t.(1) (OPut (id_of_string t.(2), hex_in t.(3)))
+        | "DATA" -> doit t.(1) (OData (id_of_string t.(2)))
+        | "NEXT" -> doit t.(1) ONext
+        | "KID" -> doit t.(1) (OKid (id_of_string t.(2), label_in t.(3)))
+        | "KIDS" -> doit t.(1) (OKids (id_of_string t.(2)))
+        | "KEYS" -> doit t.(1) OKeys
+        | "CLONE" ->
+            (match Hashtbl.find_opt ss t.(1) with
+             | Some x -> Hashtbl.replace ss t.(2) x; 
+                 Printf.printf "CLONE -> ok | pre=1 keys=[%s]\n"
+                   (String.concat "," (List.map (fun v -> string_of_int (int_of_nat v)) (s_keys (fst x))))
+             | None -> Hashtbl.remove ss t.(2); Printf.printf "CLONE -> ? | out\n")
+        | "MERGE" | "SCRIPT" -> Hashtbl.remove ss t.(1); Printf.printf "%s -> ? | out\n" opname
+        | "SLICE" -> Hashtbl.remove ss t.(3); Printf.printf "%s -> ? | out\n" opname
+        | "LOAD" | "LOADRAW" -> Hashtbl.remove ss t.(2); Printf.printf "%s -> ? | out\n" opname
+        | "LOADCUT" -> Hashtbl.remove ss t.(3); Printf.printf "%s -> ? | out\n" opname
+        | "LOADFLIP" -> Hashtbl.remove ss t.(4); Printf.printf "%s -> ? | out\n" opname
+        | _ -> Printf.printf "%s -> ? | na\n" opname
+      end)
+    lines;
+  print_string "END\n"
+
+let spec_mode = Array.length Sys.argv > 1 && Sys.argv.(1) = "spec"
+
 let main () =
   let cur = ref [] and header = ref None in
   let flush () =
     (match !header with
      | Some (id, n) ->
          Printf.printf "H %s %d\n" id n;
-         run_history n (List.rev !cur)
+         if spec_mode then spec_history n (List.rev !cur) else run_history n (List.rev !cur)
      | None -> ());
     cur := []
   in
